@@ -49,11 +49,20 @@ def work(tasks, idx):
             rp_id = RP_IDS[(ci + counter + flags) % len(RP_IDS)]      # whatever string the RP uses as its id
             a, e, _ = faults.build_assertion(c, flags=flags, counter=counter, stored=stored, require_uv=uvreq, ext=ext,
                                              cd_kwargs=CD[cdi], rp_id=rp_id, origin=origin_for(rp_id, ci + counter + cdi))
-            code = cases.run_auth(a, e)
+            # unsigned envelope members a conformant client sends: a user handle of 1-64 bytes (discoverable credentials), an
+            # attachment; and the three input forms
+            k = ci + counter + cdi + flags
+            uh_len = [None, 1, 16, 32, 63, 64, 64][k % 7]
+            if uh_len is not None:
+                a["user_handle"] = bytes((k + i) % 256 for i in range(uh_len))
+            a["attachment"] = [None, "platform", "cross-platform"][k % 3]
+            form = ["record", "dict", "text"][k % 3]
+            code = cases.run_auth(a, e, form)
             res.evaluations += 1
             tie.check(cases.auth_case(a, e), code, label=list(t))
             res.nontrivial.add(t)
             res.count("auth:" + corr.kind(code))
+            res.count("auth-form:" + form)
             exp = {"credential_id": c.cred_id.hex(), "new_sign_count": str(counter),
                    "credential_device_type": "multi_device" if flags & core.BE else "single_device",
                    "credential_backed_up": bool(flags & core.BS), "user_verified": bool(flags & core.UV)}
